@@ -51,6 +51,9 @@ pub struct Plan {
     /// thread and joins it, so nothing can change on the current tree; a change that introduces
     /// racing threads is made to show its race.
     pub stall: Vec<u32>,
+    /// After creating its k-th thread the creating thread sleeps this many microseconds (it is
+    /// descheduled right after clone), so the new thread gets to run first.
+    pub linger: Vec<u32>,
 }
 
 pub const REF_CLOCK_BASE: u64 = 1_700_000_000;
@@ -73,6 +76,7 @@ impl Plan {
             pid: REF_PID,
             repeat: 0,
             stall: vec![],
+            linger: vec![],
         }
     }
 
@@ -107,6 +111,7 @@ impl Plan {
             "pid": self.pid,
             "repeat": self.repeat,
             "stall": self.stall,
+            "linger": self.linger,
         })
     }
 
@@ -132,13 +137,16 @@ impl Plan {
             clock_step_ns: v.get("clock_step_ns").and_then(Value::as_u64).unwrap_or(REF_CLOCK_STEP_NS),
             pid: v.get("pid").and_then(Value::as_u64).unwrap_or(u64::from(REF_PID)) as u32,
             repeat: v.get("repeat").and_then(Value::as_u64).unwrap_or(0) as u32,
-            stall: v
-                .get("stall")
-                .and_then(Value::as_array)
-                .map(|a| a.iter().filter_map(|x| x.as_u64().map(|n| n as u32)).collect())
-                .unwrap_or_default(),
+            stall: list_u32(v.get("stall")),
+            linger: list_u32(v.get("linger")),
         })
     }
+}
+
+fn list_u32(v: Option<&Value>) -> Vec<u32> {
+    v.and_then(Value::as_array)
+        .map(|a| a.iter().filter_map(|x| x.as_u64().map(|n| n as u32)).collect())
+        .unwrap_or_default()
 }
 
 /// What the seam saw during one launch: one entry per `getrandom` call.
